@@ -95,6 +95,18 @@ func (u *Unit) callStatic(st *State, fr *Frame, in *ssa.Call, fn *ssa.Function, 
 		return outs, ok
 	}
 	key := fnKey(fn)
+	if ct := u.eng.contracts[key]; ct != nil && ct.Rec {
+		defer func() {
+			if r := recover(); r != nil {
+				if sp, ok := r.(specPanic); ok {
+					u.unsupported("%s", sp.msg)
+					return
+				}
+				panic(r)
+			}
+		}()
+		return []Outcome{{st, u.recCall(st, fn, args)}}, true
+	}
 	if ct := u.eng.contracts[key]; ct != nil && u.specMode == 0 && !u.bounded && !ct.Inline && fn != u.fn {
 		return u.callByContract(st, fr, in, fn, ct, args)
 	}
@@ -369,6 +381,12 @@ func (u *Unit) doAppend(st *State, fr *Frame, in *ssa.Call, et types.Type, s Sli
 	r := u.newRegion(et, "append")
 	r.fresh = true
 	r.zero = true
+	if s.R != nil {
+		r.lineage = s.R.lineage
+		if r.lineage == 0 {
+			r.lineage = s.R.id
+		}
+	}
 	ncap := Fresh("appendcap", SortInt)
 	s2.assume(And(IntLe(nl, ncap), IntLe(ncap, IntK(1<<41))))
 	s2.alloc = IntAdd(s2.alloc, IntMul(aLen, IntK(esz))) // amortised: payload bytes per appended element (A3)
@@ -393,7 +411,9 @@ func (u *Unit) doAppend(st *State, fr *Frame, in *ssa.Call, et types.Type, s Sli
 func (u *Unit) copyPrefix(st *State, dst, src *Region, off, n *Term, et types.Type) bool {
 	if isByteType(et) || scalarSort(et) != nil {
 		s := scalarSort(et)
+		u.appending = true
 		u.setComp(st, dst, "", copyMem{zeroMem{s}, IntK(0), n, u.compMem(st, src, "", s), off})
+		u.appending = false
 		return true
 	}
 	if off.C != nil && off.C.Sign() == 0 {
@@ -404,8 +424,7 @@ func (u *Unit) copyPrefix(st *State, dst, src *Region, off, n *Term, et types.Ty
 		for _, lf := range leafKeys(et, "") {
 			nc[lf.key] = u.compMem(st, src, lf.key, lf.sort)
 		}
-		_ = rs
-		st.rgn[dst] = &RegionState{comp: nc}
+		st.rgn[dst] = &RegionState{comp: nc, ver: rs.ver}
 		dst.zero = false
 		// components not enumerated by leafKeys (deeper nesting) are resolved lazily through aliasOf
 		dst.parent, dst.pidx, dst.ppath = nil, nil, ""
@@ -418,6 +437,8 @@ func (u *Unit) copyPrefix(st *State, dst, src *Region, off, n *Term, et types.Ty
 
 // appendWrite stores the addend's elements at dst[at...].
 func (u *Unit) appendWrite(st *State, dst *Region, at *Term, et types.Type, aR *Region, aOff, aLen *Term) bool {
+	u.appending = true
+	defer func() { u.appending = false }()
 	if aLen.C != nil && aLen.C.Int64() <= 64 && (aR == nil || !isByteType(et) || aR.concrete || aLen.C.Int64() <= 8) {
 		for j := int64(0); j < aLen.C.Int64(); j++ {
 			v, ok := u.readRegion(st, aR, IntAdd(aOff, IntK(j)), "", et)
